@@ -214,11 +214,29 @@ impl OptimizerRule for PropagateEmptyRelation {
                     if child.schema().eq(plan.schema()) {
                         Ok(Transformed::yes(child))
                     } else {
+                        // A union takes its column names from its first input, so
+                        // the remaining input may name a column differently: such
+                        // columns are projected by position and renamed.
+                        let exprs = plan
+                            .schema()
+                            .columns()
+                            .into_iter()
+                            .zip(child.schema().columns())
+                            .map(|(out_col, in_col)| {
+                                if out_col.name == in_col.name {
+                                    Expr::Column(out_col)
+                                } else {
+                                    Expr::Column(in_col)
+                                        .alias_qualified(out_col.relation, out_col.name)
+                                }
+                            })
+                            .collect();
                         Ok(Transformed::yes(LogicalPlan::Projection(
-                            Projection::new_from_schema(
+                            Projection::try_new_with_schema(
+                                exprs,
                                 Arc::new(child),
                                 Arc::clone(plan.schema()),
-                            ),
+                            )?,
                         )))
                     }
                 } else {
